@@ -554,7 +554,8 @@ fn c08(scn: &Scenario, _rf: &Ref, ex: &Exec, out: &mut Vec<Finding>) {
     };
     let log = &ex.rec.log;
     if n == 1 {
-        if !ex.rec.frames.is_empty() {
+        // ("no thread is spawned": a runner that starts and lets the calling thread do everything is fine)
+        if ex.rec.frames.iter().map(|x| x.registered).sum::<usize>() > 0 {
             out.push(f("max1-spawned", format!("Max(1): the runner was started {} times and {} threads were spawned", ex.rec.frames.len(), ex.rec.frames.iter().map(|x| x.registered).sum::<usize>())));
         }
         if let Some(e) = log.iter().find(|e| e.slot != 0 && matches!(e.kind, Kind::Call | Kind::Inner)) {
